@@ -6,7 +6,7 @@
 import json, subprocess, sys
 from pathlib import Path
 ROOT = Path(__file__).resolve().parent.parent
-WT = "/tmp/wt-coord"
+WT = "/tmp/wt-applyfix"
 
 
 def sh(cmd, **kw):
